@@ -59,6 +59,10 @@ CHECKS["C08"]=dict(level="exploration", ref="§C08",
    technique="finite product enumeration of screen contents x writers x configurations with a pixel-exact reference decode; every store time around the ULA fetch for the beam clause",
    text="Latin-square screen contents (every one of the 6912 addresses meets every byte value across the 256 frames of the thorough tier, 32 in quick) and 26 address-line frames are put into display memory by eight writers (LDIR, CPU store loop, poke, tape fast load through the ROM, SNA, SZX stored/zlib, SCR) on four machine/screen-bank configurations; after two unchanged frames all 49152 pixels must equal the standard decode of the displayed bank; FLASH period over 48 frames, paging bit 3 switched between frames, and for picture lines x 3 columns every store time from 90 T before to 70 T after the ULA fetch decides current/next frame.",
    note="Exploration level: contents are an arranged cover, not all 2^55296 screens; cell-locality of the decode is the argument for the arrangement. Not judged: first FLASH phase, +-16 T around the fetch.")
+CHECKS["C09"]=dict(level="exploration", ref="§C09",
+   technique="finite product enumeration of write times (every T of the frame, all pairs inside a line) on the real Emulator against a beam-position model of the border buffer",
+   text="An OUT to port FE executed by the emulated CPU at every T of the frame in thorough (five complete lines and both frame ends in quick), every ordered pair of OUTs inside one line at three line positions, writes straddling the frame wrap, write-free frames and snapshot borders of all 8 colours on both machines; every border pixel of the completed 320x240 buffer farther than 8 T from the I/O cycle of a write must show the colour last written before the beam reached it, and border_color() must report the last write.",
+   note="Exploration level: sequences of more than two writes per frame are not enumerated. Frame clock placed through the hook.")
 NOT_YET = {
 }
 def main():
